@@ -6,7 +6,6 @@ import (
 	"fmt"
 	"io"
 	"log"
-	"os"
 	"reflect"
 	"sort"
 	"time"
@@ -114,9 +113,9 @@ func runC09(r *ev.Run) {
 		r.Count("worlds", 1)
 	}
 	r.Require("time_features", "tied", "distinct", "pre-1970", "subsecond")
-	r.Require("sorts", "-created", "-mod", "blobref", "unspecified", "created")
+	r.Require("sorts", "-created", "-mod", "blobref", "unspecified", "created", "unsorted")
 	r.Require("paging", "multi-page", "exact-multiple", "single-page", "limit-beyond-end", "default-sort", "constraint-value-reused-across-scrolls", "expression-query", "no-token-for-blobref")
-	r.Require("around", "pivot-matches", "pivot-does-not-match", "window-cut-both-sides", "limit-covers-everything")
+	r.Require("around", "pivot-matches", "pivot-does-not-match", "window-cut-both-sides", "limit-covers-everything", "created-asc-window", "unsorted-window")
 	r.Require("staged", "stage-without-claims", "late-file-changes-created-time", "content-claim-before-file")
 }
 
@@ -335,9 +334,6 @@ func (p *pager) checkAll(families bool) {
 					p.checkContinue(st, lim, full)
 				}
 			}
-		}
-		if (st == search.CreatedAsc || st == search.Unsorted) && os.Getenv("VERIF_C09_NO_AROUND_CREATED") != "" {
-			continue // debugging aid: around under the sorts that are not in blobref order
 		}
 		// around
 		pivots := append([]blob.Ref(nil), w.pns...)
